@@ -32,7 +32,7 @@ fn meta() -> Meta {
     Meta {
         id: "C19",
         level: "fault_enumeration",
-        rule: "for every configuration (naming x cleanup x write mode x 0/1 earlier run) the trace of file-system points of the history W W W5 W W R W F Reopen W5 W W is recorded fault-free; then every (site, occurrence) x burst in 1..3 is failed plus every pair of two single faults at different sites (quick: for the direct-mode configurations without earlier run; thorough: all); distinct_nontrivial = distinct (configuration, site, occurrence, burst) whose fault hits a rotation, cleanup, compression or initialisation step (not a plain write); plus 12 background-cleanup configurations under the scheduler's canonical schedule, real ENOSPC on the compression target (symlink to /dev/full planted at gz_create), a duplicate stream that is a full device for three records, and the current file on a full device (every failure reported, the empty file is not closed by the size criterion); the log directory removed for three records and re-created (no panic, reported, logging resumes); a rename that really fails because the target name is a directory; a start whose rename fails for real (name too long); buffered / asynchronous mode with the current file on a full device (rotation, shutdown, reopen_output, reset_flw; recovery after the device problem is over); the size criterion holds except for operations whose rotation attempt hit a fault; the failing-duplicate-stream scenario has a second writer (log_to_file_and_writer) whose file must hold every record; no file descriptor left (soft RLIMIT_NOFILE = 0: every open and every directory listing really fails with EMFILE, rename / remove work) for three rotating records between three before and three after, naming x {direct, buffered} x clock step {0, 1 s} x cleanup {none, KeepLogFiles}: no panic, nothing logged before is destroyed, losses reported, the records after are written; the same with the logger stopped and a new one started (append on / off) while no descriptor is available; a fourth burst length 'until the faults are cleared'; nested records (a message that logs while it is formatted) on a full device: both failures of a call reported; create_symlink with its path taken by a non-empty directory (12 cases): every record written, one file per record, the problem reported",
+        rule: "for every configuration (naming x cleanup x write mode x 0/1 earlier run) the trace of file-system points of the history W W W5 W W R W F Reopen W5 W W is recorded fault-free; then every (site, occurrence) x burst in 1..3 is failed plus every pair of two single faults at different sites (quick: for the direct-mode configurations without earlier run; thorough: all); distinct_nontrivial = distinct (configuration, site, occurrence, burst) whose fault hits a rotation, cleanup, compression or initialisation step (not a plain write); plus 12 background-cleanup configurations under the scheduler's canonical schedule, real ENOSPC on the compression target (symlink to /dev/full planted at gz_create), a duplicate stream that is a full device for three records, and the current file on a full device (every failure reported, the empty file is not closed by the size criterion); the log directory removed for three records and re-created (no panic, reported, logging resumes); a rename that really fails because the target name is a directory; a start whose rename fails for real (name too long); buffered / asynchronous mode with the current file on a full device (rotation, shutdown, reopen_output, reset_flw; recovery after the device problem is over); the size criterion holds except for operations whose rotation attempt hit a fault; the failing-duplicate-stream scenario has a second writer (log_to_file_and_writer) whose file must hold every record; no file descriptor left (soft RLIMIT_NOFILE = 0: every open and every directory listing really fails with EMFILE, rename / remove work) for three rotating records between three before and three after, naming x {direct, buffered} x clock step {0, 1 s} x cleanup {none, KeepLogFiles}: no panic, nothing logged before is destroyed, losses reported, the records after are written; the same with the logger stopped and a new one started (append on / off) while no descriptor is available; a fourth burst length 'until the faults are cleared'; with the interposition shim loaded every libc call of the subject that changes the directory tree (mkdir, rename, link, open with O_CREAT / O_TRUNC, unlink, symlink; not opendir) is failed once (thorough: also in a burst of two and until cleared), whether or not a guarded hook precedes it; nested records (a message that logs while it is formatted) on a full device: both failures of a call reported; create_symlink with its path taken by a non-empty directory (12 cases): every record written, one file per record, the problem reported",
         assumptions: vec![
             "a failing file-system call has no effect and returns an io::Error of kind PermissionDenied (never NotFound, which two rename sites treat as benign)".into(),
             "faults are injected through the guarded fs_point hook directly before the call (the sandbox runs as root, permission bits do not bite)".into(),
@@ -1307,7 +1307,7 @@ fn run_dup_unit(idx: usize, unit: usize, out: &mut Out) {
     }
 }
 fn bounds(tier: &str) -> Value {
-    json!({"configurations": grid().len(), "history": format!("{:?}", word()), "bursts": [1, 2, 3, "until cleared"], "second_order": tier != "quick", "failing_duplicate_stream_cases": dup_cases().len(), "no_file_descriptor_cases": fd_cases().len()})
+    json!({"configurations": grid().len(), "history": format!("{:?}", word()), "bursts": [1, 2, 3, "until cleared"], "second_order": tier != "quick", "failing_duplicate_stream_cases": dup_cases().len(), "no_file_descriptor_cases": fd_cases().len(), "system_call_level_fault_points": crate::hooks::shim_available()})
 }
 
 #[derive(Debug)]
@@ -1317,6 +1317,10 @@ struct RunObs {
     ops: Vec<(Vec<&'static str>, usize, bool)>,
     injected: Vec<(&'static str, usize)>,
     trace: Vec<(&'static str, usize)>,
+    /// system-call notifications of the subject (call class), in order
+    sys_trace: Vec<&'static str>,
+    /// the faults of this run were placed at system calls (not at hook sites)
+    sys_faults: bool,
     lines: Vec<Vec<u8>>,
     exempt: BTreeSet<usize>,
     found: Vec<String>,
@@ -1356,10 +1360,16 @@ fn run(c: &Case, faults: &[FaultSpec], dev_full: Option<&str>) -> Result<RunObs,
         env.clock.advance_secs(1);
     }
     let first_line = h.accepted.len();
+    // (the logger is built before any fault is armed: a failing build() is an Err for the caller,
+    // not a matter of this property; the file writer initialises with the first record)
+    h.start().map_err(|e| format!("build failed: {e:?}"))?;
     {
         let mut g = env.ctx.fs.lock().unwrap();
         g.enabled = true;
         g.faults = faults.to_vec();
+        if crate::hooks::shim_available() && !c.cfg.bg_cleanup {
+            g.sys_dir = Some(env.dir.clone());
+        }
     }
     let mut ops = Vec::new();
     let mut seen: BTreeSet<String> = BTreeSet::new();
@@ -1384,7 +1394,10 @@ fn run(c: &Case, faults: &[FaultSpec], dev_full: Option<&str>) -> Result<RunObs,
         let inj_before = env.ctx.fs.lock().unwrap().injected.len();
         let err_before = env.errlines().len();
         let line_idx = h.accepted.len();
+        // (system-call points are the subject's: armed for the operation only)
+        env.ctx.fs.lock().unwrap().sys_armed = true;
         let r = h.apply(*op);
+        env.ctx.fs.lock().unwrap().sys_armed = false;
         let inj_after = env.ctx.fs.lock().unwrap().injected.clone();
         let during: Vec<(&'static str, usize)> = inj_after[inj_before..].to_vec();
         let err_after = env.errlines().len();
@@ -1395,7 +1408,7 @@ fn run(c: &Case, faults: &[FaultSpec], dev_full: Option<&str>) -> Result<RunObs,
             // which records may legitimately be missing: their own write failed, or the logger
             // was not initialised yet and a fault hit the initialisation
             // (a failing step of the start-up *cleanup* is not among them: the file is open)
-            if during.iter().any(|(s, _)| *s == "write") || (!initialised && during.iter().any(|(s, _)| matches!(*s, "open" | "rename" | "reopen"))) {
+            if during.iter().any(|(s, _)| *s == "write") || (!initialised && during.iter().any(|(s, _)| matches!(*s, "open" | "rename" | "reopen" | "list"))) {
                 exempt.insert(line_idx);
             }
             if during.is_empty() {
@@ -1411,10 +1424,10 @@ fn run(c: &Case, faults: &[FaultSpec], dev_full: Option<&str>) -> Result<RunObs,
         }
         names_seen.push(seen.len());
     }
-    let (injected, trace) = {
+    let (injected, trace, sys_trace) = {
         let mut g = env.ctx.fs.lock().unwrap();
         g.enabled = false;
-        (g.injected.clone(), g.trace.iter().map(|(s, o, _)| (*s, *o)).collect::<Vec<_>>())
+        (g.injected.clone(), g.trace.iter().map(|(s, o, _)| (*s, *o)).collect::<Vec<_>>(), g.sys_trace.iter().map(|(o, _)| *o).collect::<Vec<_>>())
     };
     let lines = h.accepted.clone();
     h.stop();
@@ -1452,6 +1465,8 @@ fn run(c: &Case, faults: &[FaultSpec], dev_full: Option<&str>) -> Result<RunObs,
         ops,
         injected,
         trace,
+        sys_trace,
+        sys_faults: faults.iter().any(|f| f.site.starts_with("sys:")),
         lines,
         exempt,
         found,
@@ -1476,7 +1491,7 @@ fn judge_obs(c: &Case, o: &RunObs, reference: Option<&Reference>) -> Result<(), 
     // faults that hit only cleanup / compression steps must not disturb how records are
     // partitioned into files (the writing path is not involved)
     if let Some(r) = reference {
-        let only_cleanup = !o.injected.is_empty() && o.injected.iter().all(|(s, _)| s.starts_with("gz_") || *s == "cleanup_remove");
+        let only_cleanup = !o.injected.is_empty() && o.injected.iter().all(|(s, _)| s.starts_with("gz_") || matches!(*s, "cleanup_remove" | "list" | "symlink"));
         // (a fault during initialisation makes the logger initialise again with the next record,
         // which legitimately rotates once more: those runs have an exempt record)
         if only_cleanup && o.exempt.is_empty() {
@@ -1514,9 +1529,13 @@ fn judge_obs(c: &Case, o: &RunObs, reference: Option<&Reference>) -> Result<(), 
         if inj > 0 {
             // a failing flush neither keeps a record from being written nor a rotation from
             // completing (the data stays in the buffer): it need not be reported
-            let only_flush = sites.iter().all(|s| *s == "flush");
+            // (nor does a directory listing that fails: the code treats it as an empty directory)
+            let only_flush = sites.iter().all(|s| matches!(*s, "flush" | "list"));
             let reported = *errs > 0 || !*ok;
-            if !reported && !only_flush {
+            // (reopen_output tries a second way when its first open fails: a single failing call
+            // that the operation overcame kept nothing from being done)
+            let overcome = o.sys_faults && *ok && matches!(all_ops[i], HOp::Reopen);
+            if !reported && !only_flush && !overcome {
                 return Err(Fail {
                     clause: "not-reported",
                     detail: format!("operation {i} ({:?}) hit {inj} injected fault(s) {:?} but neither wrote to the error channel nor returned an error", all_ops[i], o.injected),
@@ -1613,6 +1632,9 @@ fn occ_class(c: &Case, site: &str, occ: usize) -> &'static str {
 
 fn cause(c: &Case, f: &[FaultSpec]) -> String {
     let s = &f[0];
+    if s.site.starts_with("sys:") {
+        return format!("{}/{}/{}/{}{}", s.site, if s.burst > 3 { "until-cleared".to_string() } else { format!("burst{}", s.burst) }, c.cfg.naming().map_or("none", NamingK::short), super::c08::mode_class(c.cfg.mode), if c.prior_run { "/after-an-earlier-run" } else { "" });
+    }
     format!(
         "{}/{}/burst{}/{}/{}{}{}",
         s.site,
@@ -1755,6 +1777,25 @@ fn run_unit(tier: &str, unit: usize, out: &mut Out) {
             }]);
         }
     }
+    // fault placements at system-call granularity (interposition shim): every libc call of the
+    // subject that changes the directory tree or lists the directory fails once (and, thorough, in a
+    // burst of two and until the faults are cleared), whether or not a guarded hook sits in front of it
+    if c.cfg.mode == ModeK::Direct || tier != "quick" {
+        out.count("system_call_points", o.sys_trace.len() as u64);
+        for (n, op) in o.sys_trace.iter().enumerate() {
+            // (a failing directory listing is placed by the descriptor scenarios only, see DESIGN)
+            if *op == "sys:opendir" {
+                continue;
+            }
+            for burst in if tier == "quick" { vec![1] } else { vec![1, 2, 1000] } {
+                placements.push(vec![FaultSpec {
+                    site: (*op).to_string(),
+                    first_occ: n,
+                    burst,
+                }]);
+            }
+        }
+    }
     if tier != "quick" || (!c.prior_run && c.cfg.mode == ModeK::Direct) {
         for (i, a) in pairs.iter().enumerate() {
             for b in pairs.iter().skip(i + 1) {
@@ -1860,7 +1901,7 @@ fn replay(case: &Value) -> Vec<Violation> {
     let reference: Option<Reference> = judge(c, &[], unit, None).1.map(|o| (o.groups, o.names_seen));
     let (v, o) = judge(c, &faults, unit, reference.as_ref());
     if let Some(o) = o {
-        println!("  per op (injected, error lines, ok): {:?}\n  files: {:?}\n  lines: {:?}", o.ops, o.names, o.found);
+        println!("  per op (injected, error lines, ok): {:?}\n  files: {:?}\n  lines: {:?}\n  groups: {:?}\n  system calls: {:?}", o.ops, o.names, o.found, o.groups, o.sys_trace);
     }
     v.into_iter().collect()
 }
